@@ -50,7 +50,8 @@ def digitsVal (l : List Char) : Nat := l.foldl (fun n c => 10 * n + (c.toNat - '
 inductive Lit
   | int (i : Int)
   | bool (b : Bool)
-  | flt (neg : Bool) (ip : List Char) (fp : List Char)   -- sign, integer digits, fraction digits
+  /-- sign, integer digits, fraction digits, decimal exponent, and the exponent text (empty = none) -/
+  | flt (neg : Bool) (ip : List Char) (fp : List Char) (exp : Int) (etext : List Char)
 
 def stripLeading0 (l : List Char) : List Char :=
   match l.dropWhile (· == '0') with
@@ -62,34 +63,66 @@ def stripTrailing0 (l : List Char) : List Char :=
   | [] => ['0']
   | r => r
 
+def parseExp (l : List Char) : Option Int :=
+  match l with
+  | '-' :: r => if allDigits r then some (-(digitsVal r : Int)) else none
+  | '+' :: r => if allDigits r then some (digitsVal r : Int) else none
+  | r => if allDigits r then some (digitsVal r : Int) else none
+
 def parseLit (s : Str) : Option Lit :=
   if s = "True".toList then some (.bool true)
   else if s = "False".toList then some (.bool false)
   else
     let (neg, body) := match s with | '-' :: r => (true, r) | r => (false, r)
-    match body.span (· != '.') with
+    let (mant, etext) := body.span (fun c => c != 'e' && c != 'E')
+    let exp? : Option Int := match etext with | [] => some 0 | _ :: r => parseExp r
+    match exp? with
+    | none => none
+    | some ex =>
+    match mant.span (· != '.') with
     | (ip, []) =>
-      -- an int literal; Python rejects leading zeros ("007" is a SyntaxError)
-      if allDigits ip ∧ (ip.length = 1 ∨ ip.head? ≠ some '0') then
-        some (.int (if neg then -(digitsVal ip : Int) else digitsVal ip))
-      else none
+      if etext.isEmpty then
+        -- an int literal; Python rejects leading zeros ("007" is a SyntaxError)
+        if allDigits ip ∧ (ip.length = 1 ∨ ip.head? ≠ some '0') then
+          some (.int (if neg then -(digitsVal ip : Int) else digitsVal ip))
+        else none
+      else if allDigits ip then some (.flt neg ip [] ex etext) else none       -- `1e-17`
     | (ip, _ :: fp) =>
       -- Python accepts `1.` and `.5` (not a bare `.`)
-      if ip.all Char.isDigit ∧ fp.all Char.isDigit ∧ ¬ (ip.isEmpty ∧ fp.isEmpty) then some (.flt neg ip fp) else none
+      if ip.all Char.isDigit ∧ fp.all Char.isDigit ∧ ¬ (ip.isEmpty ∧ fp.isEmpty) then some (.flt neg ip fp ex etext) else none
 
-/-- `repr` of the value -/
+/-- `repr` of the value (for exponent forms the token is assumed canonical, as `repr` prints it) -/
 def reprLit : Lit → Str
   | .int i => (toString i).toList
   | .bool true => "True".toList
   | .bool false => "False".toList
-  | .flt neg ip fp => (if neg then ['-'] else []) ++ stripLeading0 ip ++ ['.'] ++ stripTrailing0 fp
+  | .flt neg ip fp _ etext =>
+    if etext.isEmpty then (if neg then ['-'] else []) ++ stripLeading0 ip ++ ['.'] ++ stripTrailing0 fp
+    else (if neg then ['-'] else []) ++ ip ++ (if fp.isEmpty then [] else '.' :: fp) ++ etext
+
+/-- the double nearest to `n / d` (round half to even) — what Python's `float("…")` / `eval` of a decimal
+literal returns; by exact integer arithmetic (normal range; outside it, the quotient of the two conversions) -/
+def ratToFloat (n d : Nat) : Float :=
+  if n = 0 ∨ d = 0 then 0.0 else
+  let e0 : Int := (Nat.log2 n : Int) - (Nat.log2 d : Int) - 52
+  let quo (e : Int) : Nat × Nat × Nat :=
+    if e ≥ 0 then (n / (d * 2 ^ e.toNat), n % (d * 2 ^ e.toNat), d * 2 ^ e.toNat)
+    else ((n * 2 ^ (-e).toNat) / d, (n * 2 ^ (-e).toNat) % d, d)
+  let e := if (quo e0).1 ≥ 2 ^ 52 then e0 else e0 - 1
+  let (q, r, den) := quo e
+  let q1 := if 2 * r > den ∨ (2 * r = den ∧ q % 2 = 1) then q + 1 else q
+  let (q2, e2) := if q1 ≥ 2 ^ 53 then (q1 / 2, e + 1) else (q1, e)
+  let E : Int := e2 + 52 + 1023
+  if E ≤ 0 ∨ E ≥ 2047 then Float.ofNat n / Float.ofNat d
+  else Float.ofBits (UInt64.ofNat (E.toNat * 2 ^ 52 + (q2 - 2 ^ 52)))
 
 def litVal : Lit → Val
   | .int i => .int i
   | .bool b => .bool b
-  | .flt neg ip fp =>
+  | .flt neg ip fp ex _ =>
     let m := digitsVal (ip ++ fp)
-    let x := Float.ofNat m / Float.ofNat (10 ^ fp.length)
+    let sc : Int := ex - fp.length
+    let x := if sc ≥ 0 then ratToFloat (m * 10 ^ sc.toNat) 1 else ratToFloat m (10 ^ (-sc).toNat)
     .flt (if neg then -x else x)
 
 def evLit (tInt tBool tFloat : Nat) (s : Str) : Option (Nat × Str) :=
@@ -192,6 +225,13 @@ def handle : List String → String
   | ["src", args, nodes] =>
     match (do let a ← parseNames args; let l ← parseNodes nodes; pure (a, l)) with
     | some (a, l) => encodeText (compileSrc a l)
+    | none => "bad-op"
+  | ["lit", text] =>
+    -- `eval` of a literal token: the value (exact double) and its `repr`
+    match decodeText text with
+    | some s => match parseLit s with
+      | some l => showVal (litVal l) ++ " " ++ encodeText (reprLit l)
+      | none => "none"
     | none => "bad-op"
   | ["tokens", text] =>
     match decodeText text with
